@@ -69,6 +69,9 @@ fn mk_datetime(y: i32, mo: u32, d: u32, h: u32, mi: u32, s: u32, us: u32) -> Nai
 }
 
 /// Apply `$f!(value)` to the concrete Rust value a Cell stands for.
+/// payload of a simulated application panic
+pub struct AppPanic(pub u32);
+
 macro_rules! with_cell {
     ($cell:expr, $f:ident) => {
         match $cell {
@@ -268,6 +271,14 @@ fn convert_param(coltype: u8, value: msql_srv::Value<'_>) -> Conv {
 }
 
 impl<const D: bool> SimShim<D> {
+    /// the application panics in the middle of its callback (writers it holds are dropped while
+    /// the thread unwinds); the simulator turns the unwinding back into "the callback failed
+    /// with this token"
+    fn app_panic(&self, tok: u32) -> ! {
+        self.w.borrow_mut().app_panic = Some(tok);
+        std::panic::panic_any(AppPanic(tok))
+    }
+
     fn run_program<W: Read + Write>(
         &mut self,
         act_idx: usize,
@@ -314,6 +325,9 @@ impl<const D: bool> SimShim<D> {
         for (i, u) in p.units.iter().enumerate() {
             if let Some((at, tok)) = p.ret_err {
                 if at as usize == i {
+                    if p.ret_panic {
+                        self.app_panic(tok);
+                    }
                     return Err(ShimErr::Token(tok));
                 }
             }
@@ -495,6 +509,9 @@ impl<const D: bool> SimShim<D> {
         }
         if let Some((at, tok)) = p.ret_err {
             if at as usize == n {
+                if p.ret_panic {
+                    self.app_panic(tok);
+                }
                 return Err(ShimErr::Token(tok));
             }
         }
@@ -527,7 +544,12 @@ impl<const D: bool> SimShim<D> {
                 match (r, p.ret_err) {
                     // "report, then hang up": the response is complete, and the callback still
                     // returns its own error
-                    (Ok(()), Some((at, tok))) if at as usize > p.units.len() => Err(ShimErr::Token(tok)),
+                    (Ok(()), Some((at, tok))) if at as usize > p.units.len() => {
+                        if p.ret_panic {
+                            self.app_panic(tok);
+                        }
+                        Err(ShimErr::Token(tok))
+                    }
                     (r, _) => r,
                 }
             }
@@ -620,7 +642,12 @@ impl<const D: bool> SimShim<D> {
                 match (r, p.ret_err) {
                     // "report, then hang up": the response is complete, and the callback still
                     // returns its own error
-                    (Ok(()), Some((at, tok))) if at as usize > p.units.len() => Err(ShimErr::Token(tok)),
+                    (Ok(()), Some((at, tok))) if at as usize > p.units.len() => {
+                        if p.ret_panic {
+                            self.app_panic(tok);
+                        }
+                        Err(ShimErr::Token(tok))
+                    }
                     (r, _) => r,
                 }
             }
